@@ -19,6 +19,13 @@ UPSTREAM_TABLE = {
 }
 DEFAULT_UPSTREAM = "m_upstream"
 
+# Null returns that are not latches although they are decided from state: (function, configuration condition, value) -> reason
+R1_EXEMPT_PATHS = {
+    ("op_tine::next", "m_branch_id != 0", True):
+        "a tine that is not the first branch never pulls: when all shared copies are consumed it reports the current input as "
+        "done, the merge wraps around to the first branch and that one pulls (rule R6); nothing is remembered",
+}
+
 
 def state_types(prog):
     st = set()
@@ -220,6 +227,9 @@ def r1(prog):
                 continue
             if n.kind == "ret":
                 if is_null_stack_expr(n.ast):
+                    if any((f["q"], k, v) in R1_EXEMPT_PATHS for k, v in assign):
+                        config_only += 1
+                        continue
                     if sflag:
                         bad = path + [(n, None)]
                         break
@@ -567,4 +577,62 @@ def r4(prog):
             for p in problems:
                 findings.append({"key": "%s:%s" % (f["q"], v["n"]), "where": "%s:%s" % (prog.rel(f["file"]), v["l"].split(":")[-1]),
                                  "msg": p, "detail": None})
+    return inst, findings
+
+
+# ---------------------------------------------------------------------------
+# R6: an ALT-list fed a new input starts with its first branch (left-to-right order)
+
+def r6(prog):
+    """The tines of a merge share one upstream; whichever tine finds all copies consumed pulls the next input and is the first
+    to yield for it.  For the documented left-to-right order of alternatives that tine must be the one of the first branch:
+    every path to the upstream pull in op_tine::next passes a test that this tine is branch 0, or the merge's branch cursor is
+    reset to 0 together with the pull."""
+    from cfg import CFG
+    inst, findings = [], []
+    f = prog.func_opt("op_tine::next")
+    if f is None:
+        raise Broken("anchor op_tine::next vanished")
+    g = CFG(f)
+    pulls = [n for n in g.nodes if node_has_pull(prog, "op_tine", n)]
+    if len(pulls) != 1:
+        raise Broken("op_tine::next no longer has exactly one upstream pull (unmodelled shape)")
+    p = pulls[0]
+    # branch-id field: the unsigned field of op_tine that is not the merge reference
+    rec = prog.records.get("op_tine")
+    ids = [fl["n"] for fl in rec["fields"] if fl["t"] in ("unsigned long", "unsigned int", "const unsigned long", "const unsigned int")]
+    if len(ids) != 1:
+        raise Broken("cannot identify op_tine's branch id field")
+    bid = ids[0]
+
+    def first_branch_edge(n, lab):
+        if n.kind != "cond" or not isinstance(n.ast, dict):
+            return False
+        c = unwrap(n.ast)
+        if c.get("k") == "bin" and c.get("op") in ("==", "!="):
+            l, r = unwrap(c["lhs"]), unwrap(c["rhs"])
+            for a, b in ((l, r), (r, l)):
+                if isinstance(a, dict) and a.get("k") == "mem" and a["n"] == bid and isinstance(b, dict) and b.get("k") == "int" and b["v"] == 0:
+                    return lab is (c["op"] == "==")
+        if c.get("k") == "mem" and c["n"] == bid:
+            return lab is False
+        return False
+    reach = g.reachable(edge_ok=lambda n, t, lab: not first_branch_edge(n, lab))
+    guarded = p.id not in reach
+    # alternative: the pull's success branch resets the merge's cursor
+    mrec = prog.records.get("op_merge::state")
+    cursor = [fl["n"] for fl in mrec["fields"] if fl["t"] in ("unsigned long", "unsigned int")] if mrec else []
+    resets = False
+    for n in g.nodes:
+        if isinstance(n.ast, dict):
+            for y in walk_nolambda(n.ast):
+                if y.get("k") == "asg" and isinstance(unwrap(y["lhs"]), dict) and unwrap(y["lhs"]).get("k") == "mem" and \
+                   unwrap(y["lhs"])["n"] in cursor and isinstance(unwrap(y["rhs"]), dict) and unwrap(y["rhs"]).get("v") == 0:
+                    resets = True
+    key = "R6:op_tine::next"
+    inst.append((key, {"pull_only_in_first_branch": guarded, "cursor_reset_with_pull": resets, "branch_id_field": bid}))
+    if not guarded and not resets:
+        findings.append({"key": key, "where": "libzwerg/op.cc:%s" % (p.loc or f["l"]).split(":")[-1],
+                         "msg": "any tine may pull the next input for the whole ALT-list, and the tine that does yields first: after the first input the alternatives come out rotated (`[(1,2) (3,4)]` gives [3, 4, 4, 3]) instead of left to right for every input",
+                         "detail": None})
     return inst, findings
